@@ -53,6 +53,11 @@ type Component struct {
 }
 
 func NewComponent(opts ComponentOptions, r *Router, errorHandler func(error)) (*Component, error) {
+	if errorHandler == nil {
+		// The callback is optional, like the event handler: without one, errors of the receiver are dropped
+		// instead of calling a nil function on a goroutine the application cannot recover in.
+		errorHandler = func(error) {}
+	}
 	c := Component{ComponentOptions: opts, router: r, ErrorHandler: errorHandler}
 	return &c, nil
 }
